@@ -54,8 +54,8 @@ theorem n1F_length (opt : Bool) (items : List Item) (lv i : Nat) (prev it : Item
     (n1F opt items lv i prev it).length ≤ 1 := by
   unfold n1F; split <;> simp
 
-theorem holdF_length (items : List Item) (lv i : Nat) (it : Item) :
-    (holdF items lv i it).length ≤ 1 := by
+theorem holdF_length (opt : Bool) (items : List Item) (lv i : Nat) (prev it : Item) :
+    (holdF opt items lv i prev it).length ≤ 1 := by
   unfold holdF
   split
   · split
@@ -74,7 +74,7 @@ theorem nextFor_length (labels : List Lbl) (opt : Bool) (rid : Nat) (items : Lis
     · rw [List.getElem?_eq_none h] at hi; simp at hi
   refine ⟨?_, hlt⟩
   have h1 := n1F_length opt items lv i prev it
-  have h2 := holdF_length items lv i it
+  have h2 := holdF_length opt items lv i prev it
   rw [nextFor_some labels opt rid items g lv i prev it hp hi] at h
   cases it with
   | op o => simp at h; obtain ⟨rfl, _⟩ := h; simp; omega
